@@ -22,19 +22,20 @@ func init() {
 }
 
 var (
-	c12pTrunc    = sim.RegStat("probe:c12-datagram-longer-than-buffer")
-	c12pMcastDel = sim.RegStat("probe:c12-multicast-datagram-delivered-to-member")
-	c12pMcastNo  = sim.RegStat("probe:c12-multicast-datagram-withheld-from-non-member")
-	c12pBlocked  = sim.RegStat("probe:c12-datagram-from-blocked-source-withheld")
-	c12pSrcSpec  = sim.RegStat("probe:c12-source-specific-membership-filtered")
-	c12pLeft     = sim.RegStat("probe:c12-datagram-after-leave-withheld")
-	c12pRebuf    = sim.RegStat("probe:c12-read-buffer-redesignated-while-pending")
-	c12pMoreSrc  = sim.RegStat("probe:c12-further-source-added-to-a-source-specific-membership")
-	c12pSpurious = sim.RegStat("probe:c12-readable-announced-with-nothing-to-read-while-a-read-is-pending")
-	c12pNested   = sim.RegStat("probe:c12-read-started-from-inside-a-read-completion")
-	c12pWrite    = sim.RegStat("probe:c12-write-observed-in-kernel")
-	c12pOpFail   = sim.RegStat("probe:c12-membership-call-failed-by-injection")
-	c12pBig      = sim.RegStat("probe:c12-datagram-65507")
+	c12pTrunc      = sim.RegStat("probe:c12-datagram-longer-than-buffer")
+	c12pMcastDel   = sim.RegStat("probe:c12-multicast-datagram-delivered-to-member")
+	c12pMcastNo    = sim.RegStat("probe:c12-multicast-datagram-withheld-from-non-member")
+	c12pBlocked    = sim.RegStat("probe:c12-datagram-from-blocked-source-withheld")
+	c12pSrcSpec    = sim.RegStat("probe:c12-source-specific-membership-filtered")
+	c12pLeft       = sim.RegStat("probe:c12-datagram-after-leave-withheld")
+	c12pRebuf      = sim.RegStat("probe:c12-read-buffer-redesignated-while-pending")
+	c12pMoreSrc    = sim.RegStat("probe:c12-further-source-added-to-a-source-specific-membership")
+	c12pAddrReused = sim.RegStat("probe:c12-one-address-object-re-pointed-between-writes")
+	c12pSpurious   = sim.RegStat("probe:c12-readable-announced-with-nothing-to-read-while-a-read-is-pending")
+	c12pNested     = sim.RegStat("probe:c12-read-started-from-inside-a-read-completion")
+	c12pWrite      = sim.RegStat("probe:c12-write-observed-in-kernel")
+	c12pOpFail     = sim.RegStat("probe:c12-membership-call-failed-by-injection")
+	c12pBig        = sim.RegStat("probe:c12-datagram-65507")
 )
 
 type c12Join struct {
@@ -57,6 +58,7 @@ type c12Sock struct {
 	ix      int
 	isPeer  bool
 	pc      sonic.PacketConn
+	to      *net.UDPAddr // the application's one address object, re-pointed in place between writes
 	peer    *multicast.UDPPeer
 	fd, gen int
 	bindIP  [4]byte
@@ -652,10 +654,10 @@ func (d *c12) writeOp(s *c12Sock) {
 			}
 		})
 	case !async:
-		err = s.pc.WriteTo(p, &net.UDPAddr{IP: net.IPv4(dst[0], dst[1], dst[2], dst[3]), Port: port})
+		err = s.pc.WriteTo(p, s.dstAddr(w, dst, port))
 	default:
 		completed = false
-		s.pc.AsyncWriteTo(p, &net.UDPAddr{IP: net.IPv4(dst[0], dst[1], dst[2], dst[3]), Port: port}, func(e error) { err, completed = e, true })
+		s.pc.AsyncWriteTo(p, s.dstAddr(w, dst, port), func(e error) { err, completed = e, true })
 	}
 	for i := 0; !completed; i++ {
 		if i > 500 {
@@ -1067,4 +1069,20 @@ func (d *c12) directed(v int) {
 		d.send(0, g, 7000, 20)
 		d.settle()
 	}
+}
+
+// dstAddr: a net.Addr names a destination by its value at the time of the call. Half of the sockets allocate an
+// address per write; the others keep one *net.UDPAddr and change its fields in place, as an application that fans
+// out over ports without allocating does.
+func (s *c12Sock) dstAddr(w *sim.World, dst [4]byte, port int) *net.UDPAddr {
+	if s.ix%2 == 0 {
+		return &net.UDPAddr{IP: net.IPv4(dst[0], dst[1], dst[2], dst[3]), Port: port}
+	}
+	if s.to == nil {
+		s.to = &net.UDPAddr{}
+	} else {
+		w.Stat(c12pAddrReused)
+	}
+	s.to.IP, s.to.Port = net.IPv4(dst[0], dst[1], dst[2], dst[3]), port
+	return s.to
 }
